@@ -16,8 +16,9 @@ pub mod c16;
 pub mod c17;
 pub mod c18;
 pub mod c19;
+pub mod c20;
 pub mod hist;
 
 pub fn all() -> Vec<CheckDef> {
-    vec![c01::def(), c02::def(), c03::def(), c04::def(), c05::def(), c06::def(), c07::def(), c08::def(), c09::def(), c11::def(), c12::def(), c13::def(), c15::def(), c16::def(), c17::def(), c18::def(), c19::def()]
+    vec![c01::def(), c02::def(), c03::def(), c04::def(), c05::def(), c06::def(), c07::def(), c08::def(), c09::def(), c11::def(), c12::def(), c13::def(), c15::def(), c16::def(), c17::def(), c18::def(), c19::def(), c20::def()]
 }
